@@ -39,6 +39,35 @@ func (d *Doc) PageNrs() []int {
 	return out
 }
 
+// AddResources merges category entries (e.g. "/XObject<</X1 5 0 R>>") into the page's /Resources dictionary.
+func (d *Doc) AddResources(pageNr int, entries string) {
+	o := d.objs[pageNr]
+	i := strings.Index(o.body, "/Resources<<")
+	if i < 0 {
+		o.body = strings.TrimSuffix(o.body, ">>") + "/Resources<<" + entries + ">>>>"
+		return
+	}
+	i += len("/Resources<<")
+	o.body = o.body[:i] + entries + o.body[i:]
+}
+
+// SetContents replaces the page's /Contents value.
+func (d *Doc) SetContents(pageNr int, value string) {
+	o := d.objs[pageNr]
+	if i := strings.Index(o.body, "/Contents "); i >= 0 {
+		j := i + len("/Contents ")
+		k := j
+		if o.body[k] == '[' {
+			k = j + strings.Index(o.body[j:], "]") + 1
+		} else {
+			k = j + strings.Index(o.body[j:], " R") + 2
+		}
+		o.body = o.body[:i] + "/Contents " + value + o.body[k:]
+		return
+	}
+	d.AppendEntries(pageNr, "/Contents "+value)
+}
+
 // AppendEntries adds entries to the dictionary object nr.
 func (d *Doc) AppendEntries(nr int, entries string) {
 	o := d.objs[nr]
